@@ -8,7 +8,7 @@ from typing import List
 
 from vf.cond import cond
 
-from .common import Environment, LiquidError, concrete_int, in_alpha
+from .common import drive, Environment, LiquidError, concrete_int, in_alpha
 
 from liquid2 import RenderContext  # noqa: E402
 from liquid2.builtin.content import ContentNode  # noqa: E402
@@ -298,11 +298,11 @@ def _all_nodes(nodes) -> list:
     pre=["0 <= i < len(BLANKS)", "-1 <= n <= 3", "len(a) <= 2", "all(0 <= k <= 3 for k in a)"],
     timeout=200,
     shard={"i": list(range(len(BLANKS)))},
-    covers="every node whose `blank` flag is set writes nothing but whitespace for all data (so suppression can only remove whitespace)",
+    covers="every node whose `blank` flag is set writes nothing but whitespace for all data (so suppression can only remove whitespace), through render and render_async",
     bounds="16 programs covering if/unless/for/case/with arms with assign, capture, comments, raw, cycle, increment, echo, liquid, output; x bool, n in -1..3, list len <= 2",
-    grid=lambda: [(i, x, n, [1, 2]) for i in range(len(BLANKS)) for x in (False, True) for n in (0, 1, 2)],
+    grid=lambda: [(i, x, n, [1, 2], s) for i in range(len(BLANKS)) for x in (False, True) for n in (0, 1, 2) for s in (False, True)],
 )
-def d_blank(i: int, x: bool, n: int, a: List[int]) -> bool:
+def d_blank(i: int, x: bool, n: int, a: List[int], is_async: bool) -> bool:
     t = BLANK_T[i]
     for node in _all_nodes(t.nodes):
         if not node.blank:
@@ -310,7 +310,10 @@ def d_blank(i: int, x: bool, n: int, a: List[int]) -> bool:
         buf = StringIO()
         ctx = RenderContext(t, global_data={"x": x, "n": n, "a": a})
         try:
-            node.render(ctx, buf)
+            if is_async:
+                drive(node.render_async(ctx, buf))
+            else:
+                node.render(ctx, buf)
         except LiquidError:
             continue
         except Exception as e:  # noqa: BLE001
